@@ -4,8 +4,9 @@ From VQ Require Import Model.Inventory.
 From VQ.Gen Require Import inv_fsq.
 Import ListNotations.
 Open Scope string_scope.
-Lemma pin_inv_fsq : inv_fsq =
+Definition pinned_inv_fsq : list (string * kind * bool) :=
   [("_basis", Buffer, false);
    ("_levels", Buffer, false);
    ("implicit_codebook", Buffer, false)].
+Lemma pin_inv_fsq : inv_fsq = pinned_inv_fsq.
 Proof. reflexivity. Qed.
